@@ -57,7 +57,10 @@ void RunCtx::need_input()
 	// the environment's own reaction: a user answers "[enter to continue]"
 	if (cur >= 0 && *ed.xvis && enters < 200) {
 		std::string last = K.vt.rowtext(K.rows - 1);
-		if (last.find("[enter to continue]") != std::string::npos) {
+		static const std::string prompt = "[enter to continue]";
+		// on a narrow terminal only the tail of the prompt is visible
+		bool tail = last.size() >= 2 && last.size() < prompt.size() && !prompt.compare(prompt.size() - last.size(), last.size(), last);
+		if (last.find(prompt) != std::string::npos || tail) {
 			enters++;
 			K.probe("enter_to_continue_answered");
 			K.ev("user_enter", 0, 0);
